@@ -20,6 +20,47 @@ EXTENDS Integers, Sequences, FiniteSets, TLC, SequencesExt
 Sel(dir, m, r) == /\ m.name = dir.mname /\ dir.mlo <= m.idx /\ m.idx < dir.mhi
                   /\ r.rn = dir.rn /\ dir.rlo <= r.resid /\ r.resid < dir.rhi
 
+(* ---------------- (1b) selection over the node list of one molecule ---------------- *)
+\* res: the residues of one molecule in NODE order (order of first appearance in the .itp), each [rn, resid].  Residue ids are
+\* unique but need NOT ascend along the node list (comb polymer: backbone 1..n, each followed by its side chain n+1..2n; a block
+\* listed first and numbered last).  Directive d: [rn, rlo, rhi].  The selection is a property of (name, id) alone, never of the
+\* position of the residue in the node list.
+SelNodesP(d, res) == { i \in 1..Len(res) : res[i].rn = d.rn /\ d.rlo <= res[i].resid /\ res[i].resid < d.rhi }
+\* I-layer: the loop of BuildDirector._tag_nodes - every node is visited in node order, tagged when its id is in arange(start, stop)
+\* and its name matches
+RECURSIVE TagLoopI(_, _, _)
+TagLoopI(d, res, i) == IF i > Len(res) THEN <<>>
+                       ELSE (IF d.rlo <= res[i].resid /\ res[i].resid < d.rhi /\ res[i].rn = d.rn THEN <<i>> ELSE <<>>) \o TagLoopI(d, res, i + 1)
+\* deviation "slice": the residues of an id range are taken to be one stretch of the node list, found by bisection on the ids as listed
+RECURSIVE BisectLeft(_, _, _, _)
+BisectLeft(ids, v, lo, hi) == IF lo >= hi THEN lo
+                              ELSE LET mid == (lo + hi) \div 2 IN IF ids[mid + 1] < v THEN BisectLeft(ids, v, mid + 1, hi) ELSE BisectLeft(ids, v, lo, mid)
+TagSliceDev(d, res) == LET ids == [i \in 1..Len(res) |-> res[i].resid]
+                           first == BisectLeft(ids, d.rlo, 0, Len(res))
+                           last == BisectLeft(ids, d.rhi, 0, Len(res))
+                       IN SelectSeq([k \in 1..(last - first) |-> first + k], LAMBDA i : res[i].rn = d.rn)
+\* deviation "index": the position in the node list is taken for the residue id
+TagIndexDev(d, res) == SelectSeq([k \in 1..Len(res) |-> k], LAMBDA i : d.rlo <= i /\ i < d.rhi /\ res[i].rn = d.rn)
+SeqRange(s) == {s[i] : i \in 1..Len(s)}
+
+(* ---------------- (2b) how a window is applied: minimum image in a rectangular box ---------------- *)
+\* lengths in 1/1000 nm; box = <<Lx, Ly, Lz>> (edges need not be equal); a candidate is accepted iff the minimum-image distance
+\* to the reference residue lies in [lo, up]
+AbsV(x) == IF x < 0 THEN -x ELSE x
+\* P-layer: per axis the shortest of the separations to the periodic images of the other point
+ImgP(dx, L) == LET S == {AbsV(dx + k * L) : k \in -3..3} IN CHOOSE m \in S : \A o \in S : m <= o
+Dist2P(dv, box) == ImgP(dv[1], box[1]) * ImgP(dv[1], box[1]) + ImgP(dv[2], box[2]) * ImgP(dv[2], box[2]) + ImgP(dv[3], box[3]) * ImgP(dv[3], box[3])
+InWindow2(m2, lo, up) == (lo <= 0 \/ lo * lo <= m2) /\ m2 <= up * up
+\* I-layer: NonBondEngine.pbc_min_dist on two points inside the box - per axis min((a-b) mod L, (b-a) mod L)
+ImgI(pa, pb, L) == LET x == (pa - pb) % L y == (pb - pa) % L IN IF x < y THEN x ELSE y
+\* deviation "noimage": plain separation;  deviation "halfshortest": folded once at half of the SHORTEST edge on every axis
+BoxMin(box) == CHOOSE m \in {box[1], box[2], box[3]} : \A o \in {box[1], box[2], box[3]} : m <= o
+ImgDev(how, pa, pb, L, box) == IF how = "noimage" THEN AbsV(pa - pb)
+                               ELSE IF how = "halfshortest" THEN (IF 2 * AbsV(pa - pb) > BoxMin(box) THEN L - AbsV(pa - pb) ELSE AbsV(pa - pb))
+                               ELSE ImgI(pa, pb, L)
+Dist2I(how, pa, pb, box) == LET c(i) == ImgDev(how, pa[i], pb[i], box[i], box) IN c(1) * c(1) + c(2) * c(2) + c(3) * c(3)
+WrapInto(p, box) == [i \in 1..3 |-> p[i] % box[i]]
+
 (* ---------------- (2) distance windows ---------------- *)
 \* chain 0..n-1 grown from node 0; restraint between ref and target (either order)
 FirstN(ref, target) == IF ref < target THEN ref ELSE target        \* placed first: plays the role of the reference
